@@ -9,8 +9,10 @@ checks={
  "C02":("exploration","simhost","every entry delivered to any user state machine is compared with what any other replica applied at that index; gap-free increasing apply order; equal state at equal applied index; the code's own log/apply invariant panics are violations", SIMHOST),
  "C03":("exploration","simhost","leader per term ghost from white-box role peeks after every event; one vote per term across restarts from the frames that leave each replica", SIMHOST),
  "C04":("exploration","simhost","every frame leaving a replica is checked against the durable shadow recorded when SaveRaftState returned; after crash+restart the recovered term/vote/last index are compared with what had been promised; restart must succeed", SIMHOST),
+ "C05":("exploration","simhost","clients use registered sessions and retry timed-out proposals with the same series id on any replica under loss/duplication/leader changes/snapshots/restarts with a small session LRU; every write id must reach each state machine incarnation at most once, retries that complete must carry the result of that application, unregistered/evicted sessions must be Rejected and never applied", SIMHOST),
  "C06":("exploration","simhost","at the moment a ReadIndex completes on any replica its local applied index must be at least the highest commit index any replica had when the request was issued (ghost, monotone), under duplication/reordering/partitions/transfers/membership changes; plus the C01 history check", SIMHOST),
  "C07":("exploration","simhost","membership observed per ConfigChangeId must be identical on all replicas and obey the stated rules; invalid requests must not complete; stale ordered ids must be rejected", SIMHOST),
+ "C08":("exploration","simhost","frequent snapshots with small compaction overhead, lagging followers caught up through real chunk transfer, restarts from own snapshots, all three SM kinds, compression on/off: replicas that applied the same index must hold the same state, restart after any crash must succeed (no gap after compaction)", SIMHOST),
  "C11":("exploration","simhost","instrumented state machines of the three kinds park inside their methods so that overlapping calls are observed; index order, no call after Close, on-disk Open index", SIMHOST),
  "C12":("exploration","simhost","every accepted request is watched for exactly one terminal result, truthful Completed value, expiry in the fair phase; component model of the pending tables", SIMHOST+"; "+L0),
  "C13":("fault_enumeration","l0","CLAIMED IN PART: frame clause decided by enumerating bit flips/truncations of real frames; codec round trip and size bounds only on generated values", L0),
